@@ -2,7 +2,8 @@
 (* B3 for C03's scaling-law clauses: families of experiments on one real Fiber + one comb.                     *)
 (*  base   : NLI per channel of the comb (micro-dB, -Inf when zero)                                          *)
 (*  scaled : the same comb with every power shifted by x micro-dB            -> CubeLaw: +3x                  *)
-(*  grown  : a channel added / one power raised (NLI on the original channels) -> Monotone                    *)
+(*  grown  : one power raised / a channel added above the comb / a channel added below it (NLI on the         *)
+(*           original channels; on two-band combs the new pump is up to 10 THz away)  -> Monotone             *)
 (*  perm   : same channels supplied in another order (re-keyed by frequency)  -> OrderIndependent             *)
 (*  lin    : full / single / pair NLI in a common linear integer unit         -> Superposition, NonNegative   *)
 (*  limit  : low-dispersion experiments                                       -> LowDispersionLimit           *)
@@ -39,6 +40,8 @@ LowDispersionLimit(t) == \A k \in 1..Len(t.limit) : LET x == t.limit[k] IN
 (*   XpmKernelFromSpmKernel: asinh(x) - asinh(y) = asinh(x sqrt(1+y^2) - y sqrt(1+x^2)) - the XPM a pump adds on a       *)
 (*     channel (pair - single, linear unit) equals the whole NLI of one equivalent channel (`eq`): pins the band edges   *)
 (*     D +/- B_j/2, the channel's baud rate inside the argument, the 1/B_j^2 normalisation and 32/27 = 2 x 16/27.         *)
+(*     Sampled from neighbouring channels up to band-to-band pairs (L-band pump, C-band channel and the reverse: the same *)
+(*     pair with the pump above and below, asinh arguments up to 10^4).                                                  *)
 AsinhDoubling(t) == \A k \in 1..Len(t.kern) : Within(t.kern[k].b, t.kern[k].a + t.kern[k].shift, 30)
 XpmKernelFromSpmKernel(t) == \A k \in 1..Len(t.xs) : LET x == t.xs[k] IN
     Within(x.pair - x.single, x.eq, 3 + x.pair \div 1000000)
